@@ -3,5 +3,6 @@
 tier=${1:-quick}; seeds=${2:-1,2,3}; ids=${3:-C01,C02,C03,C04,C05,C06,C07,C08,C09,C10,C11,C12,C13,C14,C15,C16,C17,C18,C19,C20}
 out=${SWEEP_OUT:-/tmp/sweep}; mkdir -p $out
 cd "$(dirname "$0")/.."
+export VERIF_NO_EVIDENCE=1   # keep the evidence files of the last regular run
 for s in ${seeds//,/ }; do for i in ${ids//,/ }; do echo "$s $i"; done; done | \
  xargs -P ${SWEEP_JOBS:-4} -L1 bash -c 'VERIF_SEED=$0 ./check $1 --tier '"$tier"' > '"$out"'/$1.$0.log 2>&1; echo "$1 seed=$0 rc=$? $(grep -c "^VIOLATION" '"$out"'/$1.$0.log) violations $(grep -c "^KNOWN-FINDING" '"$out"'/$1.$0.log) known"'
